@@ -1,7 +1,7 @@
 (* C05 -- Collection is bounded and spends its budget breadth-first. *)
 From Deep Require Import Base Config Collector CollectorProofs.
-From DeepGen Require Import PCollect.
-From Deep Require Import PureSupport TieCollect TieTraverse.
+From DeepGen Require Import PCollect PChildren.
+From Deep Require Import PureSupport TieCollect TieTraverse TieNames TieChildren.
 From Coq Require Import Sorted.
 
 (* Budget: a whole snapshot (all frames, then all watches / log fields / captures, one cache)
@@ -155,3 +155,25 @@ Theorem C05_the_code_on_the_example :
   map snd (k_log (fst r)) = [0; 1; 1; 1]%nat /\ snd r = true.
 Proof. vm_compute. split; reflexivity. Qed.
 Print Assumptions C05_the_code_on_the_example.
+
+(* ---- tie by translation: process_list_breadth_first and process_child_nodes as they are in /repo/src NOW *)
+(* collection size: the translated loop hands back min(max_collection_size, number of elements) children *)
+Theorem C05_the_code_caps_a_collection :
+  forall (N P : Type) (mk : str -> nat -> P -> N) (K : nat) (p : P) (el : list nat),
+  (length (gen_process_list mk (Z.of_nat K) p el) <= K)%nat /\
+  length (gen_process_list mk (Z.of_nat K) p el) = Nat.min K (length el).
+Proof. intros N P. exact (@code_list_cap N P). Qed.
+Print Assumptions C05_the_code_caps_a_collection.
+
+(* depth: the translated gate discovers nothing below the last level that may be recorded *)
+Theorem C05_the_code_depth_gate :
+  forall c h o d v, (max_depth c <= d + 1)%nat -> code_children c h o d v = [].
+Proof. exact code_depth_gate. Qed.
+Print Assumptions C05_the_code_depth_gate.
+
+(* child discovery built from the three translated functions IS the model's children_of, for every heap object the
+   harness reader classifies by the fourteen no-child type names *)
+Theorem C05_the_code_discovers_the_models_children :
+  forall c h o d v, reader_convention (hget h o) -> code_children c h o d v = children_of c h o d v.
+Proof. exact tie_children. Qed.
+Print Assumptions C05_the_code_discovers_the_models_children.
